@@ -377,8 +377,10 @@ class Gen:
                 a["alg"] = "CG"
                 a["akw"] = dict(kw_iter)
                 two = len(a["b"]["arr"]["shape"]) == 2
-                if g.random() < 0.6:
-                    a["x0"] = self.vec(n, 2 if two else None, dtype=dt, kind=g.choice([None, "zeros"]))
+                if g.random() < 0.7:
+                    mism = g.random() < 0.2
+                    a["x0"] = self.vec(n, (None if two else 2) if mism else (2 if two else None), dtype=dt,
+                                       kind=g.choice([None, None, "zeros"]))
                 if g.random() < 0.3:
                     ps, pf = self.pick(lambda f: f["psd"] and f["r"] == n and f["c"] == n)
                     if ps:
@@ -661,6 +663,26 @@ ALPHABET = {
     "exp_apply": [PRE["P"], call("unary_apply", A=S("P"), f="exp", x=B)],
     "sqrt_lanczos": [PRE["P"], call("unary_apply", A=S("P"), f="sqrt", alg="Lanczos", akw={"max_iters": 3}, v0=V0, x=B)],
     "sqrt_lanczos_store": [PRE["P"], call("unary", out="R_sqrt", A=S("P"), f="sqrt", alg="Lanczos", akw={"max_iters": 3}, v0=V0)],
+    "use_sqrt_B": [PRE["P"], call("unary", out="R_sqrt", A=S("P"), f="sqrt", alg="Lanczos", akw={"max_iters": 3}, v0=V0),
+                   call("matvec", A=S("R_sqrt"), x=B)],
+    "use_sqrt_X0": [PRE["P"], call("unary", out="R_sqrt", A=S("P"), f="sqrt", alg="Lanczos", akw={"max_iters": 3}, v0=V0),
+                    call("matvec", A=S("R_sqrt"), x=X0)],
+    "use_inv_cg_X0": [PRE["P"], call("inv", out="R_invcg", A=S("P"), alg="CG", akw={"max_iters": 5}),
+                      call("matvec", A=S("R_invcg"), x=X0)],
+    "matvec_X0": [PRE["D"], call("matvec", A=S("D"), x=X0)],
+    "matvec_sum_B": [mk("sum_b", {"k": "sum", "args": [DN, DG]}), call("matvec", A=S("sum_b"), x=B)],
+    "matvec_sum_X0": [mk("sum_b", {"k": "sum", "args": [DN, DG]}), call("matvec", A=S("sum_b"), x=X0)],
+    "algobj_cg_probe": [PRE["Pr"], {"op": "mkalg", "name": "g_cg", "cls": "CG", "kw": {"max_iters": 5, "x0": X0}},
+                        call("solve", A=S("Pr"), b=B, alg={"algobj": "g_cg"})],
+    "algobj_cg_block_raise": [PRE["Pr"], {"op": "mkalg", "name": "g_cg", "cls": "CG", "kw": {"max_iters": 5, "x0": X0}},
+                              call("solve", A=S("Pr"), b=B2, alg={"algobj": "g_cg"}, fx=RAISE1)],
+    "algobj_cg_dense_of_inv_raise": [PRE["Pr"], {"op": "mkalg", "name": "g_cg", "cls": "CG", "kw": {"max_iters": 5, "x0": X0}},
+                                     call("inv", out="R_inv_g", A=S("Pr"), alg={"algobj": "g_cg"}),
+                                     call("to_dense", A=S("R_inv_g"), fx=RAISE1)],
+    "algobj_gmres": [PRE["D"], {"op": "mkalg", "name": "g_gm", "cls": "GMRES", "kw": {"max_iters": 3, "x0": X0}},
+                     call("solve", A=S("D"), b=B, alg={"algobj": "g_gm"})],
+    "algobj_lanczos": [PRE["P"], {"op": "mkalg", "name": "g_lz", "cls": "Lanczos", "kw": {"max_iters": 3, "start_vector": V0}},
+                       call("eig", A=S("P"), k=2, which="LM", alg={"algobj": "g_lz"})],
     "eig": [PRE["P"], call("eig", A=S("P"), k=2, which="LM")],
     "eig_lanczos": [PRE["P"], call("eig", A=S("P"), k=2, which="LM", alg="Lanczos", akw={"max_iters": 3}, v0=V0)],
     "svd": [PRE["D"], call("svd", A=S("D"), k=2, which="LM")],
@@ -678,8 +700,10 @@ ALPHABET = {
 # reduced alphabet for the length-3 level (one representative per mechanism)
 ALPHABET3 = ["mk_dense", "mk_identity", "mk_generic", "mk_probe", "sum_b", "sum_l", "prod_b", "prod_l", "kron_b", "kron_l",
              "bd_b", "bd_l", "tr_l", "tr_b", "sl_b", "sl_l", "sumsl_b", "sumsl_l", "prodsl_b", "prodsl_l", "alg_ata",
-             "ann_psd", "to_f4", "matvec", "rmatvec_g", "solve_chol", "solve_cg", "solve_cg_raise", "inv_cg_store",
-             "use_inv_cg", "sqrt_lanczos", "eig_lanczos", "cg_reenter", "flatten_sum", "hutch", "import_precond"]
+             "ann_psd", "to_f4", "matvec", "rmatvec_g", "solve_chol", "solve_cg", "solve_cg_raise",
+             "use_inv_cg", "use_inv_cg_X0", "use_sqrt_B", "use_sqrt_X0", "matvec_sum_B", "matvec_sum_X0", "eig_lanczos",
+             "cg_reenter", "flatten_sum", "hutch", "import_precond", "algobj_cg_probe", "algobj_cg_block_raise",
+             "algobj_cg_dense_of_inv_raise"]
 
 
 def history(letters):
